@@ -402,7 +402,7 @@ func init() {
 				// +inline-call reg.Set RA -nm
 			} else {
 				op := L.metaOp1(unaryv, "__unm")
-				if op.Type() == LTFunction {
+				if op != LNil { // any handler is called (callTMres), a callable object too
 					// as in lvm.c, the handler of a unary operation gets the operand twice
 					reg.Push(op)
 					reg.Push(unaryv)
@@ -958,7 +958,7 @@ func objectArith(L *LState, opcode int, lhs, rhs LValue) LValue {
 		}
 	}
 	op := L.metaOp2(olhs, orhs, event)
-	if _, ok := op.(*LFunction); ok {
+	if op != LNil { // any handler is called (callTMres), a callable object too
 		L.reg.Push(op)
 		L.reg.Push(olhs)
 		L.reg.Push(orhs)
@@ -978,7 +978,7 @@ func stringConcat(L *LState, total, last int) LValue {
 		lhs := L.reg.Get(i)
 		if !(LVCanConvToString(lhs) && LVCanConvToString(rhs)) {
 			op := L.metaOp2(lhs, rhs, "__concat")
-			if op.Type() == LTFunction {
+			if op != LNil { // any handler is called (callTMres), a callable object too
 				L.reg.Push(op)
 				L.reg.Push(lhs)
 				L.reg.Push(rhs)
@@ -1079,7 +1079,7 @@ func objectRationalWithError(L *LState, lhs, rhs LValue, event string) bool {
 func objectRational(L *LState, lhs, rhs LValue, event string) int {
 	m1 := L.metaOp1(lhs, event)
 	m2 := L.metaOp1(rhs, event)
-	if m1.Type() == LTFunction && m1 == m2 {
+	if m1 != LNil && m1 == m2 { // any handler is called (callTMres), a callable object too
 		L.reg.Push(m1)
 		L.reg.Push(lhs)
 		L.reg.Push(rhs)
